@@ -38,7 +38,7 @@ CHECKS = [
        "Kernel-checked on the symbol-table model: the innermost binding wins, a block's binding is forgotten exactly when the block ends (store restored), every name resolves after the block "
        "as before it, a name bound nowhere does not resolve. The model is compared with the real SymbolTable on random define/resolve/leave_block/enter/leave sequences; enumerated scope "
        "skeletons (blocks, shadowing, siblings, nested functions, closures called later; uses before/inside/after) run through the real pipeline against P2sh.Ref/P2sh.Static.",
-       "Open: whole-compiler resolve_agrees; closure_snapshot on the VM model."),
+       "Also kernel-checked: resolve_agrees — a model of the compiler's use of the symbol table (Model/Resolver.lean: the same define / resolve / leave_block / enter / leave / function-name / parameter / free-symbol calls in the same order as compile_statement & co.; compared with the real compiler's name instructions and Closure operands on every case by op resolve) implements lexical scoping for the whole language: every identifier occurrence resolves to the binding the lexical reference (Spec/Lexical.lean) picks, undefined iff unbound, and every symbol captured before a Closure instruction is the visible local / parameter / own name of an enclosing function (closure_captures_visible). Run-time copying of the captured values: reference semantics + VM model on real bytecode."),
     _c("C05", "Lean theorems on the range/equality tests of the match template + exhaustive scrutinee×pattern tables against the reference semantics",
        "Kernel-checked for all 64-bit operands: the two-comparison test the match template performs is interval membership (a..b excludes b, a..=b includes it); equality patterns use the negation "
        "of ==. Exhaustive tables (int/char/byte/string/bool domains, all ranges in the window, two-arm programs, kind pairs for the rejection rule), if/else-if chains over truthiness "
